@@ -1031,8 +1031,12 @@ class AnyBetween(__Class):
             point of character ``start``, as defined by the Unicode Standard.
         '''
         for c in (start, end):
-            if isinstance(c, (str, _pre.Pregex)):
-                if len(str(c).replace("\\", "", 1)) > 1:
+            if isinstance(c, str):
+                if len(c) != 1:
+                    message = f"Argument \"{c}\" is neither a string nor a token."
+                    raise _ex.InvalidArgumentTypeException(message)
+            elif isinstance(c, _pre.Pregex):
+                if len(str(c).replace("\\", "", 1)) != 1:
                     message = f"Argument \"{c}\" is neither a string nor a token."
                     raise _ex.InvalidArgumentTypeException(message)
             else:
@@ -1078,8 +1082,12 @@ class AnyButBetween(__Class):
             point of character ``start``, as defined by the Unicode Standard.
         '''
         for c in (start, end):
-            if isinstance(c, (str, _pre.Pregex)):
-                if len(str(c).replace("\\", "", 1)) > 1: 
+            if isinstance(c, str):
+                if len(c) != 1:
+                    message = f"Argument \"{c}\" is neither a string nor a token."
+                    raise _ex.InvalidArgumentTypeException(message)
+            elif isinstance(c, _pre.Pregex):
+                if len(str(c).replace("\\", "", 1)) != 1:
                     message = f"Argument \"{c}\" is neither a string nor a token."
                     raise _ex.InvalidArgumentTypeException(message)
             else:
@@ -1124,8 +1132,12 @@ class AnyFrom(__Class):
             message = f"No characters were provided to \"{__class__.__name__}\"."
             raise _ex.NotEnoughArgumentsException(message)
         for c in chars:
-            if isinstance(c, (str, _pre.Pregex)):
-                if len(str(c).replace("\\", "", 1)) > 1: 
+            if isinstance(c, str):
+                if len(c) != 1:
+                    message = f"Argument \"{c}\" is neither a string nor a token."
+                    raise _ex.InvalidArgumentTypeException(message)
+            elif isinstance(c, _pre.Pregex):
+                if len(str(c).replace("\\", "", 1)) != 1:
                     message = f"Argument \"{c}\" is neither a string nor a token."
                     raise _ex.InvalidArgumentTypeException(message)
             else:
@@ -1167,8 +1179,12 @@ class AnyButFrom(__Class):
             message = f"No characters were provided to \"{__class__.__name__}\"."
             raise _ex.NotEnoughArgumentsException(message)
         for c in chars:
-            if isinstance(c, (str, _pre.Pregex)):
-                if len(str(c).replace("\\", "", 1)) > 1: 
+            if isinstance(c, str):
+                if len(c) != 1:
+                    message = f"Argument \"{c}\" is neither a string nor a token."
+                    raise _ex.InvalidArgumentTypeException(message)
+            elif isinstance(c, _pre.Pregex):
+                if len(str(c).replace("\\", "", 1)) != 1:
                     message = f"Argument \"{c}\" is neither a string nor a token."
                     raise _ex.InvalidArgumentTypeException(message)
             else:
